@@ -402,6 +402,15 @@ def execute(plan):
 
 
 def _check_psu(k, batch, res):
+  try:
+    return _check_psu_inner(k, batch, res)
+  except (Violation, kernel.HarnessError):
+    raise
+  except Exception as e:  # noqa: BLE001 -- every generated call is legal: a batch of any size, any device count, any lower bound
+    raise Violation('pad-shard-unpad-raises', f'batch {batch.shape[0]} devices {k["devices"]} min_device_batch {k["min_device_batch"]}: {type(e).__name__}: {str(e)[:200]}')
+
+
+def _check_psu_inner(k, batch, res):
   """pad_shard_unpad(fn)(batch) == fn(batch) for a per-example integer function; d devices, optional min_device_batch."""
   d = k['devices']
 
